@@ -4,6 +4,8 @@
 //!   plv replay <path>
 
 mod checks_c05;
+mod checks_codec;
+mod codec;
 mod checks_seq;
 mod checks_seq2;
 mod checks_queue;
@@ -90,6 +92,10 @@ fn run_check(id: &str, tier: Tier, seed: u64) -> i32 {
         }
         "C05" => checks_c05::run(tier, seed),
         "C19" => checks_queue::run(tier, seed),
+        "C16" => checks_codec::c16(tier, seed),
+        "C17" => checks_codec::c17(tier, seed),
+        "C18" => checks_codec::c18(tier, seed),
+        "C09" => checks_codec::c09(tier, seed),
         _ => {
             eprintln!("unknown or unbuilt property id {}", id);
             3
@@ -161,6 +167,7 @@ fn main() {
     let code = match cmd {
         "check" => run_check(args.get(2).map(|s| s.as_str()).unwrap_or(""), tier, seed),
         "replay" => replay(args.get(2).map(|s| s.as_str()).unwrap_or("")),
+        "parse-one" => checks_codec::parse_one(args.get(2).map(|s| s.as_str()).unwrap_or("")),
         _ => {
             eprintln!("usage: plv check <ID> [--tier quick|thorough] [--seed N] | plv replay <path>");
             3
